@@ -10,6 +10,17 @@ from .exceptions import DecodeError
 from .gn_address import GNAddress
 
 
+def _speed_to_field(speed: int) -> int:
+    """Encode a speed in 0.01 m/s as the 15-bit two's complement S field (saturating)."""
+    return max(-(1 << 14), min((1 << 14) - 1, speed)) & 0x7FFF
+
+
+def _field_to_speed(value: int) -> int:
+    """Decode the 15-bit two's complement S field."""
+    value &= 0x7FFF
+    return value - (1 << 15) if value & 0x4000 else value
+
+
 def _to_signed_32(value: int) -> int:
     """Interpret a 32-bit field as a two's complement signed integer."""
     value &= 0xFFFFFFFF
@@ -485,7 +496,7 @@ class LongPositionVector:
             | ((self.latitude & 0xFFFFFFFF) << 32 * 2)
             | ((self.longitude & 0xFFFFFFFF) << 32)
             | (self.pai << 31)
-            | (self.s << 16)
+            | (_speed_to_field(self.s) << 16)
             | self.h
         ).to_bytes(24, byteorder="big")
 
@@ -504,7 +515,7 @@ class LongPositionVector:
             | ((self.latitude & 0xFFFFFFFF) << 32 * 2)
             | ((self.longitude & 0xFFFFFFFF) << 32)
             | (int(self.pai) << 31)
-            | (self.s << 16)
+            | (_speed_to_field(self.s) << 16)
             | self.h
         )
 
@@ -526,7 +537,7 @@ class LongPositionVector:
         latitude = _to_signed_32(data_as_int >> 32 * 2)
         longitude = _to_signed_32(data_as_int >> 32)
         pai = bool((data_as_int >> 31) & 0x1)
-        s = (data_as_int >> 16) & 0x7FFF
+        s = _field_to_speed(data_as_int >> 16)
         h = data_as_int & 0xFFFF
         return cls(
             gn_addr=gn_addr,
